@@ -476,6 +476,11 @@ def rule_chi2(F, ev, R, config, rule="R-CHI2"):
         ev.fresh_ctx()
         v = ev.ret_val(Env(sb))
         ok = v[0] == "call" and v[1].endswith("::sqrt") and v[3][0] == ("field", ("param", sb.key, 1), sr["chi2"])
+        if not ok and v[0] == "field" and v[1] == ("param", sb.key, 1) and v[2] in f:
+            # the value is kept next to the χ² it is derived from: the constructor must store exactly sqrt(χ²_red) there
+            # (the statistics are sealed — R-STATS-SEALED — so the stored value is the one read here)
+            st = f[v[2]]
+            ok = st[0] == "call" and st[1].endswith("::sqrt") and len(st[3]) == 1 and st[3][0] == chi
         R.add(rule, config, sb.key, "std-error=sqrt(chi2)", ok, "" if ok else "returns `%s`" % short(v)[:120], sb.j["span"])
     R.floor(rule, config, 3, "residuals, chi2, standard error")
 
